@@ -68,6 +68,11 @@ Next ==
   \/ \E x \in Names : Do("u(" \o x \o ")", <<E("use", "u", 1), E("use", x, 2)>>, 2, "", <<>>)
   \/ \E x \in Names : Do(x \o " = u", <<E("use", x, 1), E("use", "u", 2)>>, 2, "", <<>>)
   \/ \E x \in Names : Do("u(" \o x \o ".a)", <<E("use", "u", 1), E("use", x, 2), E("keep", "a", 3)>>, 3, "", <<>>)
+  \* Luau TYPE positions: the namespace of `y.T` is an occurrence of the local y (a require alias); the annotation of a local is
+  \* resolved before the local is declared, like its initialiser.  Only declared names are used as namespaces.
+  \/ \E x, y \in Names : Resolve(st.old, y) # 0 /\ Do("local " \o x \o ": " \o y \o ".T = u", <<E("use", "u", 4), E("use", y, 2), E("keep", "T", 3), E("decl", x, 1)>>, 4, "", <<>>)
+  \/ \E x, y \in Names : Resolve(st.old, y) # 0 /\ Do("u(" \o x \o " :: " \o y \o ".T)", <<E("use", "u", 1), E("use", x, 2), E("use", y, 3), E("keep", "T", 4)>>, 4, "", <<>>)
+  \/ \E y \in Names : Resolve(st.old, y) # 0 /\ Do("type T = " \o y \o ".T", <<E("keep", "type", 1), E("keep", "T", 2), E("use", y, 3), E("keep", "T", 4)>>, 4, "", <<>>)   \* `type` is a word, not a keyword
   \/ Do("do", <<E("push", "", 0)>>, 0, "end", <<>>)
   \/ \E f \in FnNames, p \in Names : Do("local function " \o f \o "(" \o p \o ")", <<E("declfn", f, 1), E("push", "", 0), E("decl", p, 2)>>, 2, "end", <<>>)
   \/ \E f, p \in Names : Do("local " \o f \o " = function(" \o p \o ")", <<E("push", "", 0), E("decl", p, 2)>>, 2, "end", <<E("decl", f, 1)>>)
